@@ -89,8 +89,8 @@ def _at_yield(self, ip, k, v, node):
         st.oblige('yield%d(Message):only-after-the-response' % k, hs(st), tags=('C07',))
         for item in message_guarantee(ip, v):
             st.oblige('yield%d(Message):%s' % (k, item[0]), item[1], tags=item[2] if len(item) > 2 else ('C01', 'C04', 'C08', 'C14'))
-        if k == 1:
-            st.oblige('yield1:control-frames-never-join-the-pending-message', BoolVal(True), tags=('C01',))
+        for item in _step_at_yield(ip, k):
+            st.oblige('yield%d(Message):%s' % (k, item[0]), item[1], tags=('C01', 'C04', 'C05', 'C14', 'C08'))
     st.ghost.setdefault('yield_trace', []).append((k, 'Response' if k == 0 else 'Message'))
     from pyvc.engine import PyRaise
     from pyvc.sval import ExcVal
@@ -101,6 +101,91 @@ def _at_yield(self, ip, k, v, node):
         # the upgrade reply is processed while suspended here: compression may get enabled
         pass
     return None
+
+
+# ---- RFC 6455 5.4 as a STEP of the reassembly machine (state = the pending fragments): one iteration of the loop, started
+# with pending == L and given the next frame f, must
+#   control f           : hand on build_message([f]) and leave pending == L
+#   data f without FIN  : hand on nothing and leave pending == L ++ [f]      (also when f is EMPTY: an empty first fragment
+#                         still opens the message and fixes its type)
+#   data f with FIN     : hand on build_message(L ++ [f]) and leave pending == []
+def _cur_frame(ip):
+    import ast
+    from pyvc import source
+    from pyvc.engine import Unsupported
+    node, _ms = source.node_of(WebsocketStream.feed)
+    names = [n.targets[0].id for w in ast.walk(node) if isinstance(w, ast.While) for n in ast.walk(w)
+             if isinstance(n, ast.Assign) and len(n.targets) == 1 and isinstance(n.targets[0], ast.Name) and 'next(' in ast.unparse(n.value)]
+    if len(set(names)) != 1:
+        raise Unsupported('WebsocketStream.feed: cannot identify the frame variable of the reassembly loop')
+    f = ip.env.vars.get(names[0])
+    if isinstance(f, ORef):
+        o = ip.st.obj(f)
+        return Rec(o.cls, **o.f)
+    return f
+
+
+def _fields_eq(ip, x, y):
+    xb, yb = ip.bytes_of(x.payload), ip.bytes_of(y.payload)
+    j = fresh('sj')
+    return And(iv(x.opcode) == iv(y.opcode), iv(x.fin) == iv(y.fin), iv(x.rsv1) == iv(y.rsv1), xb.n == yb.n,
+               ForAll([j], Implies(And(j >= 0, j < xb.n), xb.at(j) == yb.at(j))))
+
+
+def _is_L_plus(ip, cur, L, f, plus):
+    k = fresh('sk')
+    if cur.concrete_len() == 0:
+        return [('pending-length', IntVal(0) == (L.n + 1 if plus else L.n))]
+    out = [('pending-length', cur.n == (L.n + 1 if plus else L.n)),
+           ('pending-prefix-unchanged', ForAll([k], Implies(And(k >= 0, k < L.n), _fields_eq(ip, cur.at(k), L.at(k)))))]
+    if plus:
+        out.append(('pending-last-is-this-frame', _fields_eq(ip, cur.at(L.n), f)))
+    return out
+
+
+def _step_at_yield(ip, k):
+    st = ip.st
+    L, f = st.ghost.get('pending_cut'), _cur_frame(ip)
+    if L is None or not isinstance(f, Rec):
+        return [('step:frame-and-pending-identifiable[%r,%r]' % (type(L).__name__, f), BoolVal(False))]
+    from contracts.message import view_frames
+    lref = st.get(ip.args.self, '_frames')
+    cur = view_frames(ip, st.mem[lref.ident])
+    calls = [a for q, a in st.ghost.get('calls', []) if q.endswith('Message.build')]
+    if not calls:
+        return [('step:message-built-by-Message.build', BoolVal(False))]
+    arg = calls[-1].frames
+    st.ghost['step_yields'] = st.ghost.get('step_yields', 0) + 1
+    control = iv(f.opcode) >= 8
+    if not (isinstance(arg, MRef) and arg.ident == lref.ident):      # built from something else than the pending list: the control path
+        one = view_frames(ip, st.mem[arg.ident]) if isinstance(arg, MRef) else None
+        return [('step:control-frame-handed-on-alone', BoolVal(one is not None and arg.ident != lref.ident and one.concrete_len() == 1)
+                 if one is None or one.concrete_len() != 1 else _fields_eq(ip, one.at(IntVal(0)), f)),
+                ('step:only-control-frames-take-this-path', control)] + \
+               [('step:control-frame-leaves-pending-untouched:' + n, g) for n, g in _is_L_plus(ip, cur, L, f, False)]
+    return [('step:only-a-final-data-frame-completes-a-message', And(Not(control), iv(f.fin) != 0))] + \
+           [('step:message-built-from-all-fragments-in-order:' + n, g) for n, g in _is_L_plus(ip, cur, L, f, True)]
+
+
+def _step_checks(ip, when):
+    if when != 'preserved':
+        return []
+    st = ip.st
+    L, f = st.ghost.get('pending_cut'), _cur_frame(ip)
+    if L is None or not isinstance(f, Rec):
+        return [('step:frame-and-pending-identifiable', BoolVal(False), ('C01', 'C04'))]
+    from contracts.message import view_frames
+    cur = view_frames(ip, st.mem[st.get(ip.args.self, '_frames').ident])
+    tags = ('C01', 'C04', 'C05', 'C14', 'C08')
+    control, fin = iv(f.opcode) >= 8, iv(f.fin) != 0
+    ny = st.ghost.get('step_yields', 0)
+    out = [('step:exactly-one-message-per-control-or-final-frame-and-none-otherwise', If(Or(control, fin), ny == 1, ny == 0), tags)]
+    for n, g in _is_L_plus(ip, cur, L, f, True):
+        out.append(('step:non-final-data-frame-joins-the-pending-message(even when empty):' + n, Implies(And(Not(control), Not(fin)), g), tags))
+    for n, g in _is_L_plus(ip, cur, L, f, False):
+        out.append(('step:control-frame-leaves-pending-untouched:' + n, Implies(control, g), tags))
+    out.append(('step:pending-empty-after-a-final-data-frame', Implies(And(Not(control), fin), cur.n == 0), tags))
+    return out
 
 
 def _check_exit(self, ip, a, old, kind, res):
@@ -146,13 +231,15 @@ def _loop(self, k):
         def maker(ip):
             lr, lst = frame_list(ip, 'pend%s' % ip.st.fresh_id('p'), minlen=0)
             ip.st.ghost['pending_at'] = lst.at
+            ip.st.ghost['step_yields'] = 0
             return True
-        locs = [('ghost', 'pending_maker', maker), ('mem', lref, at)]
+        locs = [('ghost', 'pending_maker', maker), ('mem', lref, at),
+                ('ghost', 'pending_cut', lambda ip: ip.st.mem[lref.ident])]     # the pending list as this iteration finds it
         dec = st.get(a.self, '_decompress')
         if dec is not None:
             locs.append(('heap', dec.recv, '_decompressobj', T.Ext('zdecompress')))
         return locs
-    return LoopSpec(inv=inv, modifies=mods, locals={'frame': T.Const(None)})
+    return LoopSpec(inv=inv, modifies=mods, locals={'frame': T.Const(None)}, checks=_step_checks)
 
 
 StreamFeed.variants = lambda self: ['plain', 'compressed']
@@ -162,5 +249,5 @@ StreamFeed.at_yield = _at_yield
 StreamFeed.check_exit = _check_exit
 StreamFeed.loop = _loop
 StreamFeed.external = False
-StreamFeed.serves = ('C01', 'C02', 'C04', 'C07', 'C08', 'C14')
+StreamFeed.serves = ('C01', 'C02', 'C04', 'C05', 'C07', 'C08', 'C14')
 StreamFeed.start_requires = lambda self, ip, a: []
